@@ -133,6 +133,14 @@ fn gen_params(rng: &mut Rng) -> PfParams {
         };
         (b, format!("{:e}", b), a, format!("{:e}", a))
     };
+    // values that are exactly representable in single precision but need many decimal digits
+    let (b, bt, a, at, short) = if rng.chance(0.08) {
+        let bf = (1.0f32 + (rng.below(1 << 23) as f32 + 1.0) / (1u32 << 23) as f32) as f64;
+        let af = f32::from_bits(rng.range(0x3000_0000, 0x4f00_0000) as u32) as f64;
+        (bf, format!("{:e}", bf), af, format!("{:e}", af), false)
+    } else {
+        (b, bt, a, at, short)
+    };
     let m = *rng.pick(&[1u64, 2, 64, 4096, 4096, 70000, u32::MAX as u64, 1 << 40, u64::MAX, 0]);
     let m = if rng.chance(0.3) { rng.log_range(1, 1 << 20) } else { m };
     // arbitrary 64-bit values: most are not representable in a double
@@ -238,6 +246,23 @@ impl Scenario for ParamFile {
             let mut t = dumps[0].clone();
             t.q = if t.q % 10 == 9 || t.q == u64::MAX { t.q - 1 } else { t.q + 1 };
             dumps[1] = t;
+        } else if n >= 2 && rng.chance(0.3) {
+            // two 15-significant-digit values that differ in their last digit only, same m and q
+            let lead = rng.range(1, 9);
+            let mid = rng.below(10_000_000_000_000);
+            let last = rng.range(1, 8);
+            let (s1, s2) = (format!("{}.{:013}{}", lead, mid, last), format!("{}.{:013}{}", lead, mid, last + 1));
+            let mut t1 = dumps[0].clone();
+            t1.short_decimal = true;
+            t1.a_bits = s1.parse::<f64>().unwrap().to_bits();
+            t1.a_text = s1;
+            t1.b_bits = 1.5f64.to_bits();
+            t1.b_text = "1.5".into();
+            let mut t2 = t1.clone();
+            t2.a_bits = s2.parse::<f64>().unwrap().to_bits();
+            t2.a_text = s2;
+            dumps[0] = t1;
+            dumps[1] = t2;
         }
         PfPlan { dumps, faults: IoFaults::default(), crash_offsets: None, enospc_at: None, coarse_mtime: rng.chance(0.4) }
     }
